@@ -8,6 +8,7 @@ exit 1  at least one line "VIOLATION property=<id> replay=<path>" was printed
 exit 2  infrastructure problem / inconclusive (build failure, worker death without
         a diagnosable crash, time budget hit)
 """
+import fcntl
 import hashlib
 import json
 import os
@@ -91,10 +92,23 @@ def prepare_build():
 
 
 def compile_pkg(pkg, race=False, fuzz=None):
+    # Builds are serialised with a file lock and the binary is put in place by rename: another
+    # invocation may be preparing the same build directory or running the binary at this moment.
+    os.makedirs(BUILD, exist_ok=True)
+    with open(os.path.join(BUILD, ".build.lock"), "w") as lockf:
+        fcntl.flock(lockf, fcntl.LOCK_EX)
+        try:
+            return _compile_pkg_locked(pkg, race, fuzz)
+        finally:
+            fcntl.flock(lockf, fcntl.LOCK_UN)
+
+
+def _compile_pkg_locked(pkg, race, fuzz):
     bdir, modfile, ofile = prepare_build()
     name = pkg.replace("/", "_") + (".race" if race else "") + (".fuzz-" + fuzz if fuzz else "") + ".test"
     out = os.path.join(bdir, name)
-    cmd = [GO, "test", "-c", "-vet=off", "-modfile=" + modfile, "-overlay=" + ofile, "-o", out]
+    tmp = out + ".new.%d" % os.getpid()
+    cmd = [GO, "test", "-c", "-vet=off", "-modfile=" + modfile, "-overlay=" + ofile, "-o", tmp]
     if race:
         cmd.append("-race")
     if fuzz:
@@ -102,9 +116,14 @@ def compile_pkg(pkg, race=False, fuzz=None):
     cmd.append(MODPATH + "/internal/zzverif/" + pkg)
     t0 = time.time()
     p = subprocess.run(cmd, cwd=REPO, env=goenv(), stdout=subprocess.PIPE, stderr=subprocess.STDOUT, text=True)
-    if p.returncode != 0:
+    if p.returncode != 0 or not os.path.exists(tmp):
         log("BUILD FAILED (%s):\n%s" % (" ".join(cmd), p.stdout))
+        try:
+            os.remove(tmp)
+        except OSError:
+            pass
         return None
+    os.replace(tmp, out)
     log("built %s in %.1fs" % (name, time.time() - t0))
     return out
 
@@ -242,7 +261,17 @@ def main():
         return 2
     t_start = time.time()
     stages = CHECKS[pid]["stages"]
-    workroot = os.path.join(BUILD, "work", pid + "-" + tier + ("-replay" if replay else ""))
+    # one work directory per invocation: two runs of the same check (other seeds, a replay) may
+    # go on at the same time; what earlier invocations that are no longer alive left is removed
+    wbase = pid + "-" + tier + ("-replay" if replay else "")
+    wparent = os.path.join(BUILD, "work")
+    os.makedirs(wparent, exist_ok=True)
+    for d in os.listdir(wparent):
+        if d == wbase or d.startswith(wbase + "."):
+            owner = d[len(wbase) + 1:]
+            if not (owner.isdigit() and os.path.exists("/proc/" + owner)):
+                shutil.rmtree(os.path.join(wparent, d), ignore_errors=True)
+    workroot = os.path.join(wparent, wbase + "." + str(os.getpid()))
     shutil.rmtree(workroot, ignore_errors=True)
     os.makedirs(workroot)
 
